@@ -188,7 +188,7 @@ def run_recipes_for_prop(prop, cfg, recipes, twin=None):
     from sim import runner, twins
 
     cfg = dict(cfg)
-    if twin is None or prop not in ("C08", "C15", "C18", "C14"):
+    if prop not in ("C08", "C15", "C18", "C14") or (twin is None and prop != "C14"):
         rr = runner.execute_run(cfg, recipes=copy.deepcopy(recipes))
         return [v.to_json() for v in rr.violations if prop in v.props]
     out = []
@@ -219,6 +219,7 @@ def run_recipes_for_prop(prop, cfg, recipes, twin=None):
             out.append(vj)
     elif prop == "C14":
         rr = runner.execute_run(dict(cfg, mode="real"), recipes=copy.deepcopy(recipes))
+        out.extend(v.to_json() for v in rr.violations if "C14" in v.props)
         extra, _ = c14_checks(cfg, rr, int(cfg.get("seed", 0)))
         out.extend(extra)
     return out
